@@ -22,7 +22,10 @@ def scratch_root():
     """A private scratch directory for this process tree (removed at exit by the creating process)."""
     global _SCRATCH
     if _SCRATCH is None:
-        base = os.environ.get('MC_SCRATCH_BASE') or tempfile.gettempdir()
+        base = os.environ.get('MC_SCRATCH_BASE')
+        if not base:
+            # tmpfs makes the many tiny chunk/spill files cheap; fall back to the normal temp dir
+            base = '/dev/shm' if os.access('/dev/shm', os.W_OK | os.X_OK) else tempfile.gettempdir()
         _SCRATCH = tempfile.mkdtemp(prefix='mc-petl-', dir=base)
         owner = os.getpid()
 
